@@ -207,6 +207,11 @@ func propC18rest(a *Analysis, r *Registry, b *B) {
 		}
 		a.CheckNoMutation(r, "A-1 no-mutation", fn, nil)
 	}
+	if d := os.Getenv("GMSA_DEBUG_CONDS"); d != "" {
+		if f := a.W.Fn(d); f != nil {
+			debugConds(X, f)
+		}
+	}
 	if d := os.Getenv("GMSA_DEBUG_APPENDS"); d != "" {
 		if f := a.W.Fn(d); f != nil {
 			debugAppends(X, f)
@@ -1133,4 +1138,18 @@ func unref(r *RF) *RF {
 		}
 		return r
 	}
+}
+
+// debugConds prints every branch condition and store of fn as extracted values (GMSA_DEBUG_CONDS=<fn>).
+func debugConds(X *Extractor, fn *ssa.Function) {
+	fc := X.FCFor(fn)
+	fc.Ctx.Instrs(func(in ssa.Instruction) {
+		defer func() { recover() }()
+		switch v := in.(type) {
+		case *ssa.If:
+			fmt.Fprintf(os.Stderr, "IF %s b%d: %s\n", X.W.InstrPos(v), v.Block().Index, clip(fc.Val(v.Cond).String(), 300))
+		case *ssa.Store:
+			fmt.Fprintf(os.Stderr, "STORE %s b%d: addr=%s val=%s\n", X.W.InstrPos(v), v.Block().Index, clip(fc.Val(v.Addr).String(), 200), clip(fc.Val(v.Val).String(), 200))
+		}
+	})
 }
